@@ -91,8 +91,48 @@ def r4(rep, prog):
                       "with a skipped one resumes the automaton from the wrong state, and an automaton search combined with a lower bound silently drops matching keys" % ("cut back" if name == "cut" else "extend", what), site=site(b, k))
 
 
+def r5(rep, prog):
+    """ordinals are counted over what was read, so a reader that skips must say where it is"""
+    import re
+    from ..mergecov import Aliases
+    from ..model import op_place
+    R = "C15-R5"
+    rep.rule(R, "term ordinals follow the blocks actually read: Streamer::advance numbers the keys by adding 1 per decoded key, which is the key's ordinal only while the delta reader decodes one contiguous run of blocks. Dictionary hands a Streamer a reader built by DeltaReader::from_multiple_blocks whenever an automaton is given (only the blocks the automaton can match are loaded). So, as long as such a reader exists, some store into Streamer.term_ord in advance must take its value from the delta reader (the first ordinal of the run of blocks it has just entered), not only from the previous value + 1 / a constant")
+    fid = "tantivy_sstable::streamer::Streamer::<'_, TSSTable, A>::advance"
+    b = get_body(rep, prog, R, fid)
+    if b is None:
+        return
+    skipping = [(x.id, bi) for x, bi, t in prog.who_calls(set(prog.names(r"^tantivy_sstable::delta::DeltaReader::<TValueReader>::from_multiple_blocks$"))) if "::tests::" not in x.id and "::test::" not in x.id]
+    rep.ok(R, "readers that skip blocks", "%d call site(s) of DeltaReader::from_multiple_blocks: %s" % (len(skipping), sorted({short(x) for x, _ in skipping})))
+    if not skipping:
+        return
+    al = Aliases(b, {1: "self"})
+    stores = []
+    for bi in b.normal_blocks():
+        for st in b.stmts(bi):
+            r = al.resolve(st["d"])
+            if r and r[0] == "self" and r[1][:1] == (("f", "term_ord"),):
+                stores.append((bi, st))
+    rebased = False
+    for bi, st in stores:
+        for o in st.get("o", []):
+            l = op_local(o)
+            if l is None:
+                continue
+            for x in provenance(b, l):
+                if x[0] == "call" and re.search(r"delta::DeltaReader::<TValueReader>::", x[1]) and not x[1].endswith("::advance"):
+                    rebased = True
+    if not rep.check(bool(stores), R, "stores into Streamer.term_ord found", "%d" % len(stores), "cannot establish: Streamer::advance does not store into self.term_ord", site=b.span):
+        return
+    rep.check(rebased, R, "Streamer::advance re-bases term_ord from the delta reader", "a store into self.term_ord takes its value from a DeltaReader call",
+              "Streamer::advance only ever sets term_ord to `previous + 1` (or 0), but Dictionary::sstable_delta_reader_for_key_range hands it a DeltaReader::from_multiple_blocks that loads only the blocks the automaton can match: "
+              "after a skipped block (leading or in the middle) every key is reported with the ordinal of an earlier key — `search(Regex(\"z.*\"))` reports z0 with ordinal 107 instead of 2000; a terms aggregation with "
+              "`include: \"z.*\"` on a string fast field selects the wrong terms", site=site(b, stores[0][0]))
+
+
 def run(rep, prog, tier):
     r4(rep, prog)
+    r5(rep, prog)
     rep.rule("C15-R1", "order is enforced in release builds: with debug assertions off, sstable::Writer::insert_key still contains a panic guard, controlled by a comparison with previous_key (common_prefix_len), that dominates the Ok exit; the fst builder's insert error is propagated")
     rep.rule("C15-R2", "the sstable version written by Writer::finish is accepted by SSTableIndex::open")
     rep.not_decided += ["lookup / stream / merge results (values)", "the guard is vacuous for the first key of a block because previous_key is cleared at a block flush (value-level observation)"]
